@@ -2,7 +2,7 @@
 import os, sys, inspect
 import numpy as np
 from symx.core import *
-from symx.core import z3
+from symx.core import z3, Ctx, zvar
 from symx.npproxy import NpProxy, shadow
 from symx.harness import Case
 from symx import tok
@@ -15,15 +15,16 @@ FUNCTIONS = ["wannierberri.w90files.eig.EIG.to_w90_file/from_w90_file", "wannier
              "wannierberri.w90files.utility.convert/str2arraymmn", "wannierberri.w90files.io.SavableNPZ.to_npz/from_npz/as_dict/from_dict",
              "wannierberri.w90files.io.dic_to_keydic/keydic_to_dic/sparselist_to_dict", "wannierberri.w90files.w90file.W90_file.__init__/equals/check_shape",
              "AMN/MMN/SOC/BKVectors/CheckPoint/WIN/SPN/UIU/UHU/SIU/SHU/UNK constructors", "wannierberri.w90files.wandata.WannierData.write/to_npz/from_npz/set_file/check_conform"]
-BOUNDS = dict(quick=dict(NK="1..2 (text; mmn on k-grids 1x1x1, 2x1x1, 1x2x1), 1 and 3 (npz)", NB="1..3", NW="1..2", NNB="2", data="symbolic real / complex",
+BOUNDS = dict(quick=dict(mmn_neighbour_order="MMN objects built from arrays (identity bk_reorder) and MMN objects read from a file whose neighbour order is any permutation "
+                         "(symbolic, NNB=2,3; rotated per k-point) of the BKVectors order", NK="1..2 (text; mmn on k-grids 1x1x1, 2x1x1, 1x2x1), 1 and 3 (npz)", NB="1..3", NW="1..2", NNB="2", data="symbolic real / complex",
                          stored_kpoints="every non-empty subset of range(NK) for npz (given as dict and as list with None), all k for the text files"),
-              thorough=dict(NK="1..4 (text; mmn also on 2x2x1, 3x1x1, 2x1x2), 1..4 (npz)", NB="1..4", NW="1..3", NNB="2, 4", data="symbolic real / complex",
+              thorough=dict(mmn_neighbour_order="as quick, NNB=2,3,4 (all 24 orders)", NK="1..4 (text; mmn also on 2x2x1, 3x1x1, 2x1x2), 1..4 (npz)", NB="1..4", NW="1..3", NNB="2, 4", data="symbolic real / complex",
                             stored_kpoints="every non-empty subset of range(NK) for npz (dict and sparse list), all k for the text files"))
 EXPLANATION = ("The real writers run on symbolic data: format(SymC, spec) leaves a token in the in-memory file, the real readers parse the token file "
                "(str.split / loops / reshapes / transposes run unchanged) and each token read back is a fresh real within half a unit of the last printed digit "
                "(the value itself for repr).  z3 decides, per entry, that the value read at [ik, ...] is the one written at [ik, ...] to printed precision, and that equals() holds.  "
                "npz: an in-memory store with numpy's savez/load contract; identity of every attribute after as_dict/keydic/from_dict is decided by z3.")
-ASSUMPTIONS = ["MMN is written in the neighbour order of the BKVectors object that is also given to the reader",
+ASSUMPTIONS = ["the same BKVectors object is given to MMN.to_w90_file and to the reader",
                "text files contain all NK k-points (the Wannier90 formats have no notion of a k-point subset)"]
 OUTSIDE = ["decimal rendering itself (a token stands for 'x rounded to the printed digits'); field-width overflow of very large numbers",
            "readers of files produced by Wannier90 / pw2wannier90 themselves (only write->read of this code)",
@@ -299,6 +300,58 @@ def _mmn(rec, mp_grid, bk_grid, NB):
     rec.explore(body)
 
 
+def write_mmn_by_hand(openf, seed, data, bkvec, order, fmt=format):
+    """a Wannier90-style .mmn in which the neighbours of k-point ik are listed in the order order[ik] (indices into the BKVectors order);
+    every block is identified by its header line `ik ik_neighbour G1 G2 G3`, numbers written with repr precision"""
+    NK, (NNB, NB) = len(data), data[0].shape[:2]
+    with openf(seed + ".mmn", "w") as f:
+        f.write("written by hand\n")
+        f.write(f"{NB} {NK} {NNB}\n")
+        for ik in range(NK):
+            for ib in order[ik]:
+                G = bkvec.G[ik][ib]
+                f.write(f"{ik + 1} {bkvec.neighbours[ik][ib] + 1} {G[0]} {G[1]} {G[2]}\n")
+                for n in range(NB):
+                    for m in range(NB):
+                        x = data[ik][ib, m, n]
+                        f.write(f"{fmt(x.real, '')} {fmt(x.imag, '')}\n")
+
+
+def orders_from_perm(perm, NK):
+    """listing order of k-point ik: the permutation rotated by ik (so that the k-points differ)"""
+    n = len(perm)
+    return [[perm[(j + ik) % n] for j in range(n)] for ik in range(NK)]
+
+
+def case_mmn_reordered(rec, mp_grid, bk_grid, NB):
+    """MMN object with a non-trivial bk_reorder: obtained by the real reader from a file whose neighbour order is an arbitrary (symbolic) permutation
+    of the BKVectors order; then write -> read must give the overlaps back at the same (k, b-vector) pairs"""
+    fs, p = install()
+    bkvec = make_bkvec(mp_grid, bk_grid)
+    NK, NNB = bkvec.NK, bkvec.NNB
+    M = symvec("M", (NK, NNB, NB, NB), real=False)
+    pv = [zvar(f"perm_{i}") for i in range(NNB)]
+
+    def body(rec):
+        Ctx.cur.assume(*[z3.Or(*[v == j for j in range(NNB)]) for v in pv], z3.Distinct(*pv))
+        perm = [next(j for j in range(NNB) if j == NNB - 1 or bool(SymB(pv[i] == j))) for i in range(NNB)]
+        rec.witness = lambda env: dict(kind="mmn_reordered", mp_grid=list(mp_grid), bk_grid=[list(b) for b in bk_grid], perm=[int(env[f"perm_{i}"]) for i in range(NNB)], data=env.arr(M))
+        order = orders_from_perm(perm, NK)
+        write_mmn_by_hand(fs.open, "mem/src", [M[ik] for ik in range(NK)], bkvec, order)
+        mmn = M_MMN.MMN.from_w90_file("mem/src", bkvec=bkvec)
+        all_close(rec, "reader: mmn[ik][ib] belongs to the b-vector ib of the BKVectors object whatever the order in the file", np.array([mmn.data[ik] for ik in range(NK)]), M, "",
+                  key="MMN.from_w90_file attaches overlaps to the wrong b-vector")
+        rec.concrete("reader: bk_reorder records the file order", all(list(mmn.bk_reorder[ik]) == [order[ik].index(j) for j in range(NNB)] for ik in range(NK)),
+                     f"{ {k: list(v) for k, v in mmn.bk_reorder.items()} } for file order {order}", key="MMN.from_w90_file bk_reorder wrong")
+        mmn_write(mmn, SEED, bkvec)
+        back = M_MMN.MMN.from_w90_file(SEED, bkvec=bkvec)
+        all_close(rec, "write->read of an MMN with non-trivial bk_reorder: same (k, b-vector) pairs", np.array([back.data[ik] for ik in range(NK)]), M, "",
+                  key="MMN (bk_reorder != identity) write->read scrambles the b-vectors")
+        ok, msg = mmn.equals(back, check_reorder=False)
+        rec.concrete("MMN.equals(read back, check_reorder=False)", ok, msg, key="MMN.equals false after write->read (reordered)")
+    rec.explore(body)
+
+
 def case_container_text(rec, NB, NW):
     """WannierData.write(files=[eig, amn, mmn]) then the three readers"""
     fs, p = install()
@@ -508,6 +561,13 @@ def cases(tier, seed):
         grids += [((2, 2, 1), [(1, 0, 0), (0, 1, 0), (-1, 0, 0), (0, -1, 0)]), ((3, 1, 1), [(-1, 0, 0), (1, 0, 0)]), ((2, 1, 2), [(0, 0, 1), (1, 0, 0), (0, 0, -1), (-1, 0, 0)])]
     for mp, bkg in grids:
         out.append(Case(f"mmn text mp_grid={mp} NNB={len(bkg)} NB={(1, 2) if q else (1, 2, 3)}", case_mmn, dict(mp_grid=mp, bk_grid=bkg, NBs=(1, 2) if q else (1, 2, 3))))
+    rgrids = [((2, 1, 1), [(1, 0, 0), (-1, 0, 0)]), ((2, 2, 1), [(1, 0, 0), (-1, 0, 0), (0, 1, 0)])]
+    if not q:
+        rgrids += [((1, 1, 1), [(0, 0, 1), (0, 0, -1)]), ((2, 2, 1), [(1, 0, 0), (0, 1, 0), (-1, 0, 0), (0, -1, 0)]), ((3, 1, 2), [(-1, 0, 0), (0, 0, 1), (1, 0, 0)])]
+    for mp, bkg in rgrids:
+        for NB in ((2,) if q else (1, 2, 3)):
+            out.append(Case(f"mmn text, read from a file with permuted neighbour order (all {len(bkg)}! orders) mp_grid={mp} NNB={len(bkg)} NB={NB}", case_mmn_reordered,
+                            dict(mp_grid=mp, bk_grid=bkg, NB=NB), timeout=900))
     out.append(Case("WannierData.write eig+amn+mmn NB=2 NW=1", case_container_text, dict(NB=2, NW=1)))
     if not q:
         out.append(Case("WannierData.write eig+amn+mmn NB=3 NW=2", case_container_text, dict(NB=3, NW=2)))
@@ -568,6 +628,19 @@ def replay(rec):
                 b = M_MMN.MMN.from_w90_file(seed, bkvec=bk, npar=1)
                 ex = cmp([b.data[i] for i in range(len(M))], M, 0)
                 return ex > 0, f"MMN shape={M.shape} mp_grid={w['mp_grid']}: excess = {ex:.3e}; written[0,0]={M[0, 0].tolist()} read[0,0]={np.asarray(b.data[0][0]).tolist()}"
+            if w["kind"] == "mmn_reordered":
+                M = fill(unarr(w["data"]), True)
+                bk = make_bkvec(tuple(w["mp_grid"]), [tuple(b) for b in w["bk_grid"]])
+                perm = w["perm"] if sorted(w["perm"]) == list(range(len(w["perm"]))) else list(range(len(w["perm"])))[::-1]
+                order = orders_from_perm(perm, len(M))
+                write_mmn_by_hand(open, os.path.join(tmp, "src"), list(M), bk, order, fmt=lambda x, spec: repr(float(x)))
+                mmn = M_MMN.MMN.from_w90_file(os.path.join(tmp, "src"), bkvec=bk, npar=1)
+                ex0 = cmp([mmn.data[i] for i in range(len(M))], M, 0)
+                mmn_write(mmn, seed, bk)
+                b = M_MMN.MMN.from_w90_file(seed, bkvec=bk, npar=1)
+                ex = cmp([b.data[i] for i in range(len(M))], M, 0)
+                return ex > 0 or ex0 > 0, (f"MMN read from a file listing the neighbours in order {order} (bk_reorder={ {k: list(map(int, v)) for k, v in mmn.bk_reorder.items()} }), "
+                                           f"then written and read back: reader excess {ex0:.2e}, write->read excess {ex:.3e}")
             if w["kind"] == "container_text":
                 E, A, M = fill(unarr(w["E"]), False), fill(unarr(w["A"]), True), fill(unarr(w["M"]), True)
                 bk = make_bkvec((2, 1, 1), [(1, 0, 0), (-1, 0, 0)])
